@@ -9,6 +9,7 @@ shared real-number instance `Proofs/GeoReal.lean` read-only).
 -/
 import Midgard.Proofs.GeoReal
 import Midgard.Model.Geodetic
+import Midgard.Model.GeoSelect
 import Mathlib.Tactic.Positivity
 import Mathlib.Tactic.Linarith
 
@@ -316,13 +317,10 @@ theorem trs2llh_equator (E : Ellipsoid ℝ) (hE : Mild E) (x y : ℝ)
       rw [show (0:ℝ) * 0 + cc * cc = cc ^ 2 by ring, Real.sqrt_sq hcc.le]
     rw [h1, h2]; field_simp; ring
 
-/-- the tangential offset `R` of the one-step answer: the component of `input − foot(φ₁)` along the meridian
-tangent at the computed latitude `φ₁` (`tan φ₁ = s1/cc`); `R = 0` iff `φ₁` is the exact geodetic latitude -/
-noncomputable def tangentialOffset (E : Ellipsoid ℝ) (p z : ℝ) : ℝ :=
-  let sc := halley E p z
-  let D := Real.sqrt (sc.1 * sc.1 + sc.2 * sc.2)
-  let W := Real.sqrt ((1 - E.e2) * (sc.1 * sc.1) + sc.2 * sc.2)
-  (z * sc.2 - p * sc.1) / D + E.e2 * E.a * sc.1 * sc.2 / (D * W)
+/-- the tangential offset `R` of the one-step answer (the model function `tangentialOffsetOf`, which the driver
+executes at `Float`, at `ℝ`): the component of `input − foot(φ₁)` along the meridian tangent at the computed latitude
+`φ₁` (`tan φ₁ = s1/cc`); `R = 0` iff `φ₁` is the exact geodetic latitude -/
+noncomputable def tangentialOffset (E : Ellipsoid ℝ) (p z : ℝ) : ℝ := tangentialOffsetOf E p z
 
 /-- meridian-plane identity behind the residual theorem: with `cos φ = cc/D`, `sin φ = s1/D`, the height formula of
 `_trs2llh` and `llh2trs` give back `(p + R·s1/D, z − R·cc/D)` -/
@@ -424,5 +422,110 @@ theorem roundtrip_residual (E : Ellipsoid ℝ) (hE : Mild E) (v : V3 ℝ)
       field_simp
     rw [this, ← hpp, hDD]
     field_simp
+
+
+/-- `llh2trs` of the mirrored latitude is the mirror image -/
+theorem llh2trs_neg_lat (E : Ellipsoid ℝ) (lat lon h : ℝ) :
+    llh2trs E ⟨-lat, lon, h⟩ =
+      ⟨(llh2trs E ⟨lat, lon, h⟩).x, (llh2trs E ⟨lat, lon, h⟩).y, -(llh2trs E ⟨lat, lon, h⟩).z⟩ := by
+  have hsq : -Real.sin lat * -Real.sin lat = Real.sin lat * Real.sin lat := neg_mul_neg _ _
+  simp only [llh2trs, llh2trsCS, trig_cos, trig_sin, Real.cos_neg, Real.sin_neg, hsq, mul_neg]
+
+/-- `trs2llh` of the mirrored point: latitude negated, longitude and height unchanged -/
+theorem trs2llh_neg_z (E : Ellipsoid ℝ) (x y z : ℝ) :
+    trs2llh E ⟨x, y, -z⟩ = ⟨-(trs2llh E ⟨x, y, z⟩).lat, (trs2llh E ⟨x, y, z⟩).lon, (trs2llh E ⟨x, y, z⟩).h⟩ := by
+  have ha : absOf (-z) = absOf z := by
+    unfold absOf
+    rcases lt_trichotomy z 0 with h | h | h
+    · have : ¬ (-z < 0) := by linarith
+      simp [h, this]
+    · simp [h]
+    · have h' : -z < 0 := by linarith
+      have : ¬ (z < 0) := by linarith
+      simp [h', this]
+  have hs : signOf (-z) = -signOf z := by
+    unfold signOf
+    rcases lt_trichotomy z 0 with h | h | h
+    · have h1 : ¬ (-z < 0) := by linarith
+      have h2 : 0 < -z := by linarith
+      simp [h, h1, h2]
+    · simp [h]
+    · have h1 : -z < 0 := by linarith
+      have h2 : ¬ (z < 0) := by linarith
+      simp [h, h1, h2]
+  simp only [trs2llh, ha, hs, mul_neg]
+
+/-- the southern half space: the mirror image of `roundtrip_residual` -/
+theorem roundtrip_residual_south (E : Ellipsoid ℝ) (hE : Mild E) (v : V3 ℝ)
+    (hoff : ¬ v.x * v.x + v.y * v.y ≤ E.a * E.a * 1e-32) (hz : v.z < 0)
+    (hdeep : (E.e2 * (1 - E.f) * E.a) ^ 2 < (1 - E.f) ^ 2 * (v.x * v.x + v.y * v.y) + v.z * v.z) :
+    ∃ k : ℝ, ∃ c : ℝ,
+      llh2trs E (trs2llh E v) = ⟨v.x * (1 + k), v.y * (1 + k), v.z + c⟩ ∧
+      (v.x * k) ^ 2 + (v.y * k) ^ 2 + c ^ 2 = (tangentialOffset E (Real.sqrt (v.x * v.x + v.y * v.y)) (-v.z)) ^ 2 := by
+  have hd : (E.e2 * (1 - E.f) * E.a) ^ 2 < (1 - E.f) ^ 2 * (v.x * v.x + v.y * v.y) + (-v.z) * (-v.z) := by
+    rw [neg_mul_neg]; exact hdeep
+  obtain ⟨k, c, h1, h2⟩ := roundtrip_residual E hE ⟨v.x, v.y, -v.z⟩ hoff (by show 0 < -v.z; linarith) hd
+  refine ⟨k, c, ?_, h2⟩
+  have hv : v = ⟨v.x, v.y, -(-v.z)⟩ := by cases v; simp
+  rw [hv, trs2llh_neg_z, llh2trs_neg_lat]
+  have h1' : llh2trs E ⟨(trs2llh E ⟨v.x, v.y, -v.z⟩).lat, (trs2llh E ⟨v.x, v.y, -v.z⟩).lon, (trs2llh E ⟨v.x, v.y, -v.z⟩).h⟩
+      = ⟨v.x * (1 + k), v.y * (1 + k), -v.z - c⟩ := h1
+  rw [h1']
+  apply V3.ext' <;> simp
+  ring
+
+/-- the equatorial plane: the round trip is the identity at every height -/
+theorem equator_roundtrip (E : Ellipsoid ℝ) (hE : Mild E) (x y : ℝ)
+    (hoff : ¬ x * x + y * y ≤ E.a * E.a * 1e-32)
+    (hdeep : (E.e2 * (1 - E.f) * E.a) ^ 2 < (1 - E.f) ^ 2 * (x * x + y * y)) :
+    llh2trs E (trs2llh E ⟨x, y, 0⟩) = ⟨x, y, 0⟩ := by
+  obtain ⟨hlat, hh⟩ := trs2llh_equator E hE x y hoff hdeep
+  have hp2 : 0 < x * x + y * y := by
+    have : (0:ℝ) ≤ E.a * E.a * 1e-32 := by have := hE.ha; positivity
+    linarith [not_le.1 hoff]
+  set p := Real.sqrt (x * x + y * y) with hp
+  have hp0 : 0 < p := Real.sqrt_pos.2 hp2
+  have hne : (⟨x, y⟩ : ℂ) ≠ 0 := by
+    intro h; have := congrArg Complex.normSq h
+    simp [Complex.normSq_mk] at this; linarith
+  have hnorm : ‖(⟨x, y⟩ : ℂ)‖ = p := by rw [Complex.norm_def, Complex.normSq_mk]
+  have hco : Real.cos (Complex.arg ⟨x, y⟩) = x / p := by rw [Complex.cos_arg hne, hnorm]
+  have hso : Real.sin (Complex.arg ⟨x, y⟩) = y / p := by rw [Complex.sin_arg, hnorm]
+  have hlon : (trs2llh E ⟨x, y, 0⟩).lon = Complex.arg ⟨x, y⟩ := by simp only [trs2llh, trig_atan2]
+  have ha := hE.ha
+  simp only [llh2trs, llh2trsCS, trig_cos, trig_sin, trig_sqrt, hlat, hlon, hh, hco, hso, Real.cos_zero, Real.sin_zero]
+  apply V3.ext' <;> simp <;> field_simp
+
+
+/-- **the exact geodetic latitude is the zero of the tangential offset**: for the point at geodetic `(φ, h)` —
+`p = (N + h) cos φ`, `z = (N(1 − e²) + h) sin φ`, `N = a/√(1 − e² sin² φ)` — and any positive multiple `(k sin φ, k cos φ)`
+of the exact `(sin, cos)`, `offsetAt` vanishes; so `R = tangentialOffset` measures nothing but the latitude error of the
+single Halley step -/
+theorem offsetAt_true_latitude (E : Ellipsoid ℝ) (he0 : 0 ≤ E.e2) (he1 : E.e2 < 1) (s c h k : ℝ)
+    (hsc : s ^ 2 + c ^ 2 = 1) (hk : 0 < k) :
+    let N := E.a / Real.sqrt (1 - E.e2 * s ^ 2)
+    offsetAt E ((N + h) * c) ((N * (1 - E.e2) + h) * s) (k * s) (k * c) = 0 := by
+  intro N
+  have hs2 : s ^ 2 ≤ 1 := by nlinarith [sq_nonneg c]
+  have hrad : 0 < 1 - E.e2 * s ^ 2 := by nlinarith [sq_nonneg s]
+  set w := Real.sqrt (1 - E.e2 * s ^ 2) with hw
+  have hw0 : 0 < w := Real.sqrt_pos.2 hrad
+  have hD : Real.sqrt (k * s * (k * s) + k * c * (k * c)) = k := by
+    rw [show k * s * (k * s) + k * c * (k * c) = k ^ 2 by linear_combination (k ^ 2) * hsc]
+    exact Real.sqrt_sq hk.le
+  have hW : Real.sqrt ((1 - E.e2) * (k * s * (k * s)) + k * c * (k * c)) = k * w := by
+    rw [show (1 - E.e2) * (k * s * (k * s)) + k * c * (k * c) = k ^ 2 * (1 - E.e2 * s ^ 2) by
+      linear_combination (k ^ 2) * hsc]
+    rw [Real.sqrt_mul (by positivity), Real.sqrt_sq hk.le]
+  simp only [offsetAt, trig_sqrt, hD, hW, N]
+  field_simp
+  ring
+
+/-- the start value of the scheme, `T₀ = (|z|/a) / (√(1−e²)·p/a)`, against the exact tangent of the reduced latitude
+`q·tan φ` (`q = √(1−e²)`): the error is exactly `e²·h·tan φ / (q·(N + h))` — zero on the surface and on the sphere -/
+theorem start_value_error (a q N h s c : ℝ) (ha : a ≠ 0) (hq : q ≠ 0) (hc : c ≠ 0) (hNh : N + h ≠ 0) :
+    ((N * q ^ 2 + h) * s / a) / (q * ((N + h) * c / a)) - q * (s / c) = (1 - q ^ 2) * h * s / (q * (N + h) * c) := by
+  field_simp
+  ring
 
 end Midgard.Geo.Acc
